@@ -68,6 +68,9 @@ def c11(prog, rep):
     O.rule_m3(prog, rep, om, C.C11_UNITS)
     C.rule_m4(prog, rep, C.C11_UNITS)
     H.rule_h2(prog, rep)
+    from . import chain as CH
+    CH.rule_s3(prog, rep, C.C11_UNITS)
+    rep.floor('S3', 1)
     rep.floor('M1', 6)
     rep.floor('M2', 30)
     rep.floor('M3', 50)
@@ -101,7 +104,7 @@ def c15(prog, rep):
     T.rule_a4(prog, rep, T.restructurers(prog)[0])
     rep.floor('A4', 2)
     rep.floor('A1', 60)
-    rep.floor('A2', 6)
+    rep.floor('A2', 60)
     rep.floor('A3', 60)
     rep.floor('M2f', 25)
     rep.explanation = (
@@ -230,7 +233,28 @@ def c04(prog, rep):
     rep.assumptions += ['floor semantics and the getnext continuation are runtime behaviour and are not decided']
 
 
+def c05(prog, rep):
+    from . import chain as CH, counts as K, own as O
+    om = O.OwnModel(prog)
+    CH.rule_s1_s2(prog, rep)
+    CH.rule_s3(prog, rep, [CH.UNIT])
+    K.rule_t4(prog, rep, om, units=[CH.UNIT])
+    rep.floor('S1', 4)
+    rep.floor('S2', 3)
+    rep.floor('S3', 1)
+    rep.floor('T4', 3)
+    rep.explanation = (
+        'Sibling-agreement and protocol rules on qhashtbl.c: S1 put/get/remove compute the chain slot from the same closed '
+        'expression (hash function, length argument, modulus field, obtained by expanding local definitions) and the walk resumes '
+        'at (stored hash % range) + 1; S2 the three lookups use the same chain-match predicate (polarity-insensitive); S3 in the '
+        'predecessor-pointer unlink loop every path that goes round again records the cursor as predecessor and the unlink handles '
+        'head and interior entries; T4 the key count moves exactly with node creation/destruction. Not decided: map behaviour over '
+        'histories and chain layouts.')
+    rep.assumptions += ['map behaviour over histories is not decided']
+
+
 PROPS = {
+    'C05': dict(fn=c05, level='other'),
     'C01': dict(fn=c01, level='other'),
     'C04': dict(fn=c04, level='other'),
     'C07': dict(fn=c07, level='other'),
